@@ -1699,6 +1699,19 @@ where
         }
     }
 
+    /// Put an element back into the object exactly as it was taken out,
+    /// for when the operation on it could not be fulfilled.
+    fn restore_entry(
+        &mut self,
+        header: dicom_core::header::DataElementHeader,
+        value: Value<InMemDicomObject<D>, InMemFragment>,
+    ) {
+        self.entries.insert(
+            header.tag,
+            DataElement::new_with_len(header.tag, header.vr, header.len, value),
+        );
+    }
+
     fn apply_push_str_impl(&mut self, tag: Tag, string: Cow<'static, str>) -> ApplyResult {
         if let Some(e) = self.entries.remove(&tag) {
             let (header, value) = e.into_parts();
@@ -1706,20 +1719,32 @@ where
                 Value::Primitive(mut v) => {
                     self.invalidate_if_charset_changed(tag);
                     // extend value
-                    v.extend_str([string]).context(ModifySnafu)?;
+                    if let Err(e) = v.extend_str([string]) {
+                        // keep the element as it was
+                        self.restore_entry(header, v.into());
+                        return Err(e).context(ModifySnafu);
+                    }
                     // reinsert element
                     self.put(DataElement::new(tag, header.vr, v));
                     Ok(())
                 }
 
-                Value::PixelSequence(..) => IncompatibleTypesSnafu {
-                    kind: ValueType::PixelSequence,
+                value @ Value::PixelSequence(..) => {
+                    // keep the element as it was
+                    self.restore_entry(header, value);
+                    IncompatibleTypesSnafu {
+                        kind: ValueType::PixelSequence,
+                    }
+                    .fail()
                 }
-                .fail(),
-                Value::Sequence(..) => IncompatibleTypesSnafu {
-                    kind: ValueType::DataSetSequence,
+                value @ Value::Sequence(..) => {
+                    // keep the element as it was
+                    self.restore_entry(header, value);
+                    IncompatibleTypesSnafu {
+                        kind: ValueType::DataSetSequence,
+                    }
+                    .fail()
                 }
-                .fail(),
             }
         } else {
             // infer VR from tag
@@ -1739,20 +1764,32 @@ where
             match value {
                 Value::Primitive(mut v) => {
                     // extend value
-                    v.extend_i32([integer]).context(ModifySnafu)?;
+                    if let Err(e) = v.extend_i32([integer]) {
+                        // keep the element as it was
+                        self.restore_entry(header, v.into());
+                        return Err(e).context(ModifySnafu);
+                    }
                     // reinsert element
                     self.put(DataElement::new(tag, header.vr, v));
                     Ok(())
                 }
 
-                Value::PixelSequence(..) => IncompatibleTypesSnafu {
-                    kind: ValueType::PixelSequence,
+                value @ Value::PixelSequence(..) => {
+                    // keep the element as it was
+                    self.restore_entry(header, value);
+                    IncompatibleTypesSnafu {
+                        kind: ValueType::PixelSequence,
+                    }
+                    .fail()
                 }
-                .fail(),
-                Value::Sequence(..) => IncompatibleTypesSnafu {
-                    kind: ValueType::DataSetSequence,
+                value @ Value::Sequence(..) => {
+                    // keep the element as it was
+                    self.restore_entry(header, value);
+                    IncompatibleTypesSnafu {
+                        kind: ValueType::DataSetSequence,
+                    }
+                    .fail()
                 }
-                .fail(),
             }
         } else {
             // infer VR from tag
@@ -1772,20 +1809,32 @@ where
             match value {
                 Value::Primitive(mut v) => {
                     // extend value
-                    v.extend_u32([integer]).context(ModifySnafu)?;
+                    if let Err(e) = v.extend_u32([integer]) {
+                        // keep the element as it was
+                        self.restore_entry(header, v.into());
+                        return Err(e).context(ModifySnafu);
+                    }
                     // reinsert element
                     self.put(DataElement::new(tag, header.vr, v));
                     Ok(())
                 }
 
-                Value::PixelSequence(..) => IncompatibleTypesSnafu {
-                    kind: ValueType::PixelSequence,
+                value @ Value::PixelSequence(..) => {
+                    // keep the element as it was
+                    self.restore_entry(header, value);
+                    IncompatibleTypesSnafu {
+                        kind: ValueType::PixelSequence,
+                    }
+                    .fail()
                 }
-                .fail(),
-                Value::Sequence(..) => IncompatibleTypesSnafu {
-                    kind: ValueType::DataSetSequence,
+                value @ Value::Sequence(..) => {
+                    // keep the element as it was
+                    self.restore_entry(header, value);
+                    IncompatibleTypesSnafu {
+                        kind: ValueType::DataSetSequence,
+                    }
+                    .fail()
                 }
-                .fail(),
             }
         } else {
             // infer VR from tag
@@ -1805,20 +1854,32 @@ where
             match value {
                 Value::Primitive(mut v) => {
                     // extend value
-                    v.extend_i16([integer]).context(ModifySnafu)?;
+                    if let Err(e) = v.extend_i16([integer]) {
+                        // keep the element as it was
+                        self.restore_entry(header, v.into());
+                        return Err(e).context(ModifySnafu);
+                    }
                     // reinsert element
                     self.put(DataElement::new(tag, header.vr, v));
                     Ok(())
                 }
 
-                Value::PixelSequence(..) => IncompatibleTypesSnafu {
-                    kind: ValueType::PixelSequence,
+                value @ Value::PixelSequence(..) => {
+                    // keep the element as it was
+                    self.restore_entry(header, value);
+                    IncompatibleTypesSnafu {
+                        kind: ValueType::PixelSequence,
+                    }
+                    .fail()
                 }
-                .fail(),
-                Value::Sequence(..) => IncompatibleTypesSnafu {
-                    kind: ValueType::DataSetSequence,
+                value @ Value::Sequence(..) => {
+                    // keep the element as it was
+                    self.restore_entry(header, value);
+                    IncompatibleTypesSnafu {
+                        kind: ValueType::DataSetSequence,
+                    }
+                    .fail()
                 }
-                .fail(),
             }
         } else {
             // infer VR from tag
@@ -1838,20 +1899,32 @@ where
             match value {
                 Value::Primitive(mut v) => {
                     // extend value
-                    v.extend_u16([integer]).context(ModifySnafu)?;
+                    if let Err(e) = v.extend_u16([integer]) {
+                        // keep the element as it was
+                        self.restore_entry(header, v.into());
+                        return Err(e).context(ModifySnafu);
+                    }
                     // reinsert element
                     self.put(DataElement::new(tag, header.vr, v));
                     Ok(())
                 }
 
-                Value::PixelSequence(..) => IncompatibleTypesSnafu {
-                    kind: ValueType::PixelSequence,
+                value @ Value::PixelSequence(..) => {
+                    // keep the element as it was
+                    self.restore_entry(header, value);
+                    IncompatibleTypesSnafu {
+                        kind: ValueType::PixelSequence,
+                    }
+                    .fail()
                 }
-                .fail(),
-                Value::Sequence(..) => IncompatibleTypesSnafu {
-                    kind: ValueType::DataSetSequence,
+                value @ Value::Sequence(..) => {
+                    // keep the element as it was
+                    self.restore_entry(header, value);
+                    IncompatibleTypesSnafu {
+                        kind: ValueType::DataSetSequence,
+                    }
+                    .fail()
                 }
-                .fail(),
             }
         } else {
             // infer VR from tag
@@ -1871,20 +1944,32 @@ where
             match value {
                 Value::Primitive(mut v) => {
                     // extend value
-                    v.extend_f32([number]).context(ModifySnafu)?;
+                    if let Err(e) = v.extend_f32([number]) {
+                        // keep the element as it was
+                        self.restore_entry(header, v.into());
+                        return Err(e).context(ModifySnafu);
+                    }
                     // reinsert element
                     self.put(DataElement::new(tag, header.vr, v));
                     Ok(())
                 }
 
-                Value::PixelSequence(..) => IncompatibleTypesSnafu {
-                    kind: ValueType::PixelSequence,
+                value @ Value::PixelSequence(..) => {
+                    // keep the element as it was
+                    self.restore_entry(header, value);
+                    IncompatibleTypesSnafu {
+                        kind: ValueType::PixelSequence,
+                    }
+                    .fail()
                 }
-                .fail(),
-                Value::Sequence(..) => IncompatibleTypesSnafu {
-                    kind: ValueType::DataSetSequence,
+                value @ Value::Sequence(..) => {
+                    // keep the element as it was
+                    self.restore_entry(header, value);
+                    IncompatibleTypesSnafu {
+                        kind: ValueType::DataSetSequence,
+                    }
+                    .fail()
                 }
-                .fail(),
             }
         } else {
             // infer VR from tag
@@ -1904,20 +1989,32 @@ where
             match value {
                 Value::Primitive(mut v) => {
                     // extend value
-                    v.extend_f64([number]).context(ModifySnafu)?;
+                    if let Err(e) = v.extend_f64([number]) {
+                        // keep the element as it was
+                        self.restore_entry(header, v.into());
+                        return Err(e).context(ModifySnafu);
+                    }
                     // reinsert element
                     self.put(DataElement::new(tag, header.vr, v));
                     Ok(())
                 }
 
-                Value::PixelSequence(..) => IncompatibleTypesSnafu {
-                    kind: ValueType::PixelSequence,
+                value @ Value::PixelSequence(..) => {
+                    // keep the element as it was
+                    self.restore_entry(header, value);
+                    IncompatibleTypesSnafu {
+                        kind: ValueType::PixelSequence,
+                    }
+                    .fail()
                 }
-                .fail(),
-                Value::Sequence(..) => IncompatibleTypesSnafu {
-                    kind: ValueType::DataSetSequence,
+                value @ Value::Sequence(..) => {
+                    // keep the element as it was
+                    self.restore_entry(header, value);
+                    IncompatibleTypesSnafu {
+                        kind: ValueType::DataSetSequence,
+                    }
+                    .fail()
                 }
-                .fail(),
             }
         } else {
             // infer VR from tag
